@@ -530,6 +530,11 @@ func (w *world) enabled() []act {
 		for _, n := range cfg.ClosedLen {
 			out = append(out, act{K: "data", S: lastClosed, N: n, P: -1})
 		}
+		// a late WINDOW_UPDATE for a stream that is already closed (legal, RFC 7540 section 6.9: it must be ignored -
+		// in particular it must not credit any other window)
+		if len(cfg.WUk) > 0 {
+			out = append(out, act{K: "wu", S: lastClosed, N: cfg.WUk[len(cfg.WUk)-1]})
+		}
 	}
 	for _, k := range cfg.WUk {
 		out = append(out, act{K: "wu", S: -1, N: k})
